@@ -234,6 +234,27 @@ func main() {
 		})
 	}
 
+	// SafeParamsFor / SafeParametersFor: no `<x>.Paths.Paths` and no field selection on a map-index expression
+	paramsNilSafe := true
+	for _, name := range []string{"SafeParamsFor", "SafeParametersFor"} {
+		fd := root.fn(name)
+		if fd == nil {
+			paramsNilSafe = false
+			continue
+		}
+		ast.Inspect(fd.Body, func(n ast.Node) bool {
+			if sel, ok := n.(*ast.SelectorExpr); ok {
+				if inner, ok := sel.X.(*ast.SelectorExpr); ok && sel.Sel.Name == "Paths" && inner.Sel.Name == "Paths" {
+					paramsNilSafe = false
+				}
+				if _, ok := sel.X.(*ast.IndexExpr); ok {
+					paramsNilSafe = false
+				}
+			}
+			return true
+		})
+	}
+
 	var b bytes.Buffer
 	b.WriteString("import Verif.Model.Facts\n")
 	b.WriteString("-- GENERATED by /verif/harness/cmd/extract from /repo's working tree; do not edit.\n\n")
@@ -249,6 +270,7 @@ func main() {
 	fmt.Fprintf(&b, "  mixinMethods := %s\n", leanStrList(mixinMethods))
 	fmt.Fprintf(&b, "  mixinSkipsEmptyIDs := %v\n", mixinSkipsEmptyIDs)
 	fmt.Fprintf(&b, "  mixinExtDocsGuard := %v\n", mixinExtDocsGuard)
+	fmt.Fprintf(&b, "  paramsNilSafe := %v\n", paramsNilSafe)
 	fmt.Fprintf(&b, "  paramsForMethods := %s\n", leanStrList(paramsForMethods))
 	_ = sort.Strings
 
